@@ -163,8 +163,8 @@ type channel struct {
 	untilWrite     bool
 	closed         int32
 	running        int32
-	closeErr       error
-	writeLock      sync.Mutex // for sync write
+	closeErr       atomic.Value // closeErrBox: the error of the Close call that took effect
+	writeLock      sync.Mutex   // for sync write
 }
 
 // ID get channel id
@@ -205,7 +205,7 @@ func (c *channel) Close(err error) {
 			}
 		}
 
-		c.closeErr = err
+		c.closeErr.Store(closeErrBox{err})
 		c.transport.Close()
 		c.cancel()
 
@@ -466,11 +466,16 @@ func (c *channel) asyncWritev(ctx context.Context, p [][]byte) (int64, error) {
 // the channel was closed with, or ErrChannelClosed if it was closed without one.
 func (c *channel) closedError() error {
 	<-c.ctx.Done()
-	if nil != c.closeErr {
-		return c.closeErr
+	// the channel context may also end because its parent was cancelled (Shutdown does that before
+	// closing the channels), which does not order this read after the store in Close: read atomically.
+	if box, ok := c.closeErr.Load().(closeErrBox); ok && nil != box.err {
+		return box.err
 	}
 	return ErrChannelClosed
 }
+
+// closeErrBox wraps the close error so that a nil error can be stored in an atomic.Value.
+type closeErrBox struct{ err error }
 
 // IsActive return true if the Channel is active and so connected
 func (c *channel) IsActive() bool {
